@@ -502,6 +502,246 @@ def rule_palette_fastpath(ctx):
                 "delta entries (index < nb_deltas) are written out without their prediction", fn=f, pos=f.term_pos(fast[0]))
 
 
+def rule_palette_delta(ctx):
+    """decision table of `this pixel is recorded for prediction` over (index, nb_deltas), extracted by a product-state walk of MIR"""
+    from ..facts import op_place, op_local, op_const
+    rid = "R-PALETTE-DELTA"
+    ctx.rule(rid, "on the slow path of Palette::inverse_inner a pixel gets the d_pred prediction added iff its index is below nb_deltas - "
+                  "including every negative index (the implicit delta palette).  The decision table of `the pixel's position is pushed "
+                  "onto the to-be-predicted list before the next pixel is read` is extracted from MIR for index in {-200,-2,-1,0,1,2,3,5,70} x "
+                  "nb_deltas in {0,2} (nb_colours = 4) by a product-state walk (block x known integer locals; integer comparisons, "
+                  "Range / RangeInclusive::contains and casts are evaluated, every other value is unknown and both branches of a test "
+                  "on an unknown value are followed) and compared with `index < nb_deltas`.  A lower bound on the index in that test "
+                  "(seed C03i) leaves implicit delta entries unpredicted")
+    md = ctx.prog.crate("jxl_modular")
+    fs = [f for f in md.fn_list if f.path.endswith("::inverse_inner") and "palette" in f.path and f.kind == "AssocFn"]
+    if len(fs) != 1:
+        ctx.anchor_missing(rid, "Palette::inverse_inner")
+        return
+    f = fs[0]
+    ctx.seen(f)
+    # the two width-converted header fields
+    fld = {}
+    for b, blk in enumerate(f.blocks):
+        for st in blk[0]:
+            if st[0] == "=" and st[2][0] == "use":
+                pl = op_place(st[2][1])
+                if pl:
+                    for e in pl[1:]:
+                        if isinstance(e, list) and e[0] == "." and e[2] in ("nb_deltas", "nb_colours") and len(st[1]) == 1:
+                            fld[st[1][0]] = e[2]
+    wide = {}
+    for b, blk in enumerate(f.blocks):
+        for st in blk[0]:
+            if st[0] == "=" and st[2][0] == "cast" and len(st[1]) == 1 and op_local(st[2][2]) in fld:
+                wide[fld[op_local(st[2][2])]] = st[1][0]
+    if set(wide) != {"nb_deltas", "nb_colours"}:
+        ctx.anchor_missing(rid, "the i32 copies of nb_deltas / nb_colours in Palette::inverse_inner")
+        return
+    pushes = [b for b, t in f.calls() if callee(t) and callee(t)["fn"] == "alloc::vec::Vec::<T, A>::push" and "(usize, usize)" in str(callee(t).get("args"))]
+    if not pushes:
+        ctx.anchor_missing(rid, "the push of a pixel position onto the to-be-predicted list")
+        return
+    # candidate: the to_i32 call from whose return a position push is reachable without another to_i32
+    cands = []
+    for b, t in f.calls():
+        c = callee(t)
+        if not c or not c["fn"].endswith("Sample::to_i32") or t[4] is None or len(t[3]) != 1:
+            continue
+        seen, work, hit = {t[4]}, [t[4]], False
+        while work:
+            x = work.pop()
+            if x in pushes:
+                hit = True
+                break
+            tx = f.term(x)
+            if tx[0] == "call" and callee(tx) and callee(tx)["fn"].endswith("Sample::to_i32"):
+                continue
+            for y in f.succs(x):
+                if y not in seen and not f.is_cleanup(y):
+                    seen.add(y)
+                    work.append(y)
+        if hit:
+            cands.append((b, t))
+    if len(cands) != 1:
+        ctx.anchor_missing(rid, "the read of the palette index that precedes the prediction bookkeeping (found %d)" % len(cands))
+        return
+    cb, ct = cands[0]
+    idx_local = ct[3][0]
+    UNK = None
+
+    def val(env, o):
+        k = op_const(o)
+        if k is not None:
+            try:
+                return int(k["v"]) if "v" in k and str(k.get("ty")) in ("i32", "u32", "usize", "isize", "i64", "u64", "bool", "i16", "u16", "u8", "i8") else UNK
+            except (TypeError, ValueError):
+                return UNK
+        pl = op_place(o)
+        if pl is None:
+            return UNK
+        v = env.get(pl[0], UNK)
+        for e in pl[1:]:
+            if e == "*":
+                if isinstance(v, tuple) and v[0] == "ref":
+                    v = env.get(v[1], UNK)
+                else:
+                    return UNK
+            elif isinstance(e, list) and e[0] == "." and isinstance(v, tuple) and v[0] == "pair":
+                v = v[1 + e[1]] if e[1] < 2 else UNK
+            else:
+                return UNK
+        return v
+
+    def binop(op, a, b):
+        if not isinstance(a, int) or not isinstance(b, int):
+            return UNK
+        r = {"Lt": lambda: int(a < b), "Le": lambda: int(a <= b), "Gt": lambda: int(a > b), "Ge": lambda: int(a >= b),
+             "Eq": lambda: int(a == b), "Ne": lambda: int(a != b), "Add": lambda: a + b, "Sub": lambda: a - b,
+             "BitAnd": lambda: a & b, "BitOr": lambda: a | b,
+             "AddWithOverflow": lambda: ("pair", a + b, 0), "SubWithOverflow": lambda: ("pair", a - b, 0)}.get(op)
+        return r() if r else UNK
+
+    def step_block(env, b):
+        for st in f.stmts(b):
+            if st[0] != "=":
+                continue
+            dst = st[1]
+            if len(dst) != 1:
+                if not (len(dst) > 1 and dst[1] == "*"):
+                    env.pop(dst[0], None)
+                continue
+            rv = st[2]
+            v = UNK
+            # only values derived from the three seeded locals are tracked: a bare constant (a loop counter's start) is not
+            if rv[0] == "use":
+                v = val(env, rv[1]) if op_const(rv[1]) is None else UNK
+            elif rv[0] == "cast" and rv[1] == "IntToInt":
+                v = val(env, rv[2]) if op_const(rv[2]) is None else UNK
+                v = v if isinstance(v, int) and -2 ** 31 <= v < 2 ** 31 and not (v < 0 and str(rv[3]).startswith("u")) else UNK
+            elif rv[0] == "bin":
+                v = binop(rv[1], val(env, rv[2]), val(env, rv[3])) if op_const(rv[2]) is None or op_const(rv[3]) is None else UNK
+            elif rv[0] == "un" and rv[1] == "Not":
+                a = val(env, rv[2])
+                v = int(not a) if a in (0, 1) else UNK
+            elif rv[0] == "ref":
+                pl = rv[2]
+                if len(pl) == 1:
+                    v = ("ref", pl[0])
+                elif len(pl) == 2 and pl[1] == "*" and isinstance(env.get(pl[0]), tuple) and env[pl[0]][0] == "ref":
+                    v = env[pl[0]]
+            elif rv[0] == "agg" and rv[1][0] == "adt" and rv[1][1] in ("core::ops::range::Range", "core::ops::range::RangeInclusive") and len(rv[2]) >= 2:
+                v = ("range" if rv[1][1].endswith("Range") else "rangei", val(env, rv[2][0]), val(env, rv[2][1]))
+            if v is UNK:
+                env.pop(dst[0], None)
+            else:
+                env[dst[0]] = v
+        return env
+
+    def deref(env, v):
+        n = 0
+        while isinstance(v, tuple) and v[0] == "ref" and n < 4:
+            v = env.get(v[1], UNK)
+            n += 1
+        return v
+
+    def freeze(env):
+        return tuple(sorted(env.items(), key=lambda kv: kv[0]))
+
+    def walk(index, nd, nc):
+        env0 = {idx_local: index, wide["nb_deltas"]: nd, wide["nb_colours"]: nc}
+        start = (ct[4], False, freeze(env0))
+        seen, work, verdicts = {start}, [start], set()
+        n = 0
+        while work:
+            b, pushed, envt = work.pop()
+            n += 1
+            if n > 40000:
+                return None
+            if b == cb:
+                verdicts.add(pushed)
+                continue
+            env = step_block(dict(envt), b)
+            t = f.term(b)
+            nxt = []
+            if t[0] == "ret":
+                verdicts.add(pushed)
+                continue
+            if t[0] == "switch":
+                v = val(env, t[1])
+                if isinstance(v, int):
+                    tgt = t[3]
+                    for sv, x in t[2]:
+                        if int(sv) == int(v):
+                            tgt = x
+                    nxt = [tgt]
+                else:
+                    nxt = [x for _, x in t[2]] + [t[3]]
+            elif t[0] == "call":
+                c = callee(t)
+                r = UNK
+                nm = c["fn"] if c else ""
+                if b in pushes:
+                    pushed = True
+                elif nm.startswith("core::ops::range::Range") and nm.endswith("::contains") and len(t[2]) == 2:
+                    rg, x = deref(env, val(env, t[2][0])), deref(env, val(env, t[2][1]))
+                    if isinstance(rg, tuple) and rg[0] in ("range", "rangei") and all(isinstance(q, int) for q in (rg[1], rg[2], x)):
+                        r = int(rg[1] <= x < rg[2]) if rg[0] == "range" else int(rg[1] <= x <= rg[2])
+                elif nm.endswith("RangeInclusive::<Idx>::new") and len(t[2]) == 2:
+                    r = ("rangei", val(env, t[2][0]), val(env, t[2][1]))
+                if len(t[3]) == 1:
+                    if r is UNK:
+                        env.pop(t[3][0], None)
+                    else:
+                        env[t[3][0]] = r
+                else:
+                    env.pop(t[3][0], None)
+                # a call that is handed a mutable reference to a tracked local may change it
+                for a in t[2]:
+                    av = val(env, a)
+                    if isinstance(av, tuple) and av[0] == "ref" and b not in pushes and not nm.endswith("::contains"):
+                        if "&mut" in str(f.local_ty(op_local(a))) if op_local(a) is not None else False:
+                            env.pop(av[1], None)
+                nxt = [t[4]] if t[4] is not None else []
+            elif t[0] == "goto":
+                nxt = [t[1]]
+            elif t[0] == "assert":
+                nxt = [t[4]]
+            elif t[0] == "drop":
+                nxt = [t[2]]
+            elif t[0] in ("falseedge", "falseunwind"):
+                nxt = [t[1]]
+            envt2 = freeze(env)
+            for x in nxt:
+                if f.is_cleanup(x):
+                    continue
+                s2 = (x, pushed, envt2)
+                if s2 not in seen:
+                    seen.add(s2)
+                    work.append(s2)
+        return verdicts
+
+    rows, bad = 0, []
+    for nd in (0, 2):
+        for index in (-200, -2, -1, 0, 1, 2, 3, 5, 70):
+            got = walk(index, nd, 4)
+            rows += 1
+            want = index < nd
+            if got is None or got != {want}:
+                bad.append((index, nd, got))
+    ctx.count(rid + ".rows", rows)
+    ctx.floor(rid + ".rows", 18)
+    if not bad:
+        ctx.ok(rid, "predict-iff-index-below-nb_deltas", "18 rows: the position is recorded for prediction exactly when index < nb_deltas, negative indices included",
+               nontrivial=True, fn=f)
+    else:
+        index, nd, got = bad[0]
+        what = "could not be decided (state limit)" if got is None else ("is recorded on some paths only" if len(got) != 1 else
+                                                                          ("is recorded" if True in got else "is not recorded"))
+        ctx.bad(rid, "predict-iff-index-below-nb_deltas", "index %d with nb_deltas %d (nb_colours 4): the pixel %s for prediction, the format says %s "
+                "(%d of 18 rows differ)" % (index, nd, what, "it is a delta entry" if index < nd else "it is not a delta entry", len(bad)), fn=f)
+
+
 def main(pid, tier, repo=None):
     ctx = Ctx(pid, tier, configs=("workspace",), repo=repo)
     specconst.run(ctx, pid, floor=2)
@@ -512,6 +752,7 @@ def main(pid, tier, repo=None):
     rule_prevdepth(ctx)
     rule_table_index(ctx)
     rule_palette_fastpath(ctx)
+    rule_palette_delta(ctx)
     from . import fixguards
     fixguards.run(ctx, pid)
     ctx.not_decided("that every decoded sample equals the encoded integer: predictors (incl. the self-correcting one), context-tree lookup, "
